@@ -40,12 +40,12 @@ class Result:
         self.warnings = {}        # case id -> [warning diags]  (only when collect_warnings)
 
 
-def _layout(cases, nshards, header, prelude, collect_warnings):
+def _layout(cases, nshards, header, prelude, collect_warnings, binprefix="shard"):
     shards = common.chunks(cases, nshards)
     files, ranges = {}, {}
     for k, part in enumerate(shards):
         lines = (header + prelude).split("\n")
-        name = "shard_%02d" % k
+        name = "%s_%02d" % (binprefix, k)
         rel = "src/bin/%s.rs" % name
         rng = []
         for c in part:
@@ -93,10 +93,13 @@ def build_and_run(ctx, name, cases, nshards=None, prelude="", run=True, max_roun
         raise Inconclusive("duplicate case ids in workload " + name)
     nshards = nshards or min(common.NCPU, max(1, len(cases) // 8))
     arts = None
+    # package and binary names are unique per (property, tier, workload, repo copy): all generated
+    # crates share one target directory, where equally named binaries would overwrite each other
+    pkg = re.sub(r"\W", "_", ("w_%s_%s_%s%s" % (ctx.pid, ctx.tier, name, common.repo_tag())).lower())
     while True:
         res.rounds += 1
-        files, ranges = _layout(live, nshards, header, prelude, collect_warnings)
-        common.make_crate(cdir, "w_" + re.sub(r"\W", "_", name.lower()), files, dm_features=dm_features, extra_toml=extra_toml)
+        files, ranges = _layout(live, nshards, header, prelude, collect_warnings, binprefix=pkg)
+        common.make_crate(cdir, pkg, files, dm_features=dm_features, extra_toml=extra_toml)
         rc, diags, arts, err = common.cargo_json(cdir, ("build", "--bins") if run else ("check", "--bins"), timeout=timeout, env=cargo_env)
         errors = [d for d in diags if d.get("level") == "error" and not d.get("message", "").startswith("aborting due to")
                   and not d.get("message", "").startswith("could not compile")]
@@ -129,7 +132,7 @@ def build_and_run(ctx, name, cases, nshards=None, prelude="", run=True, max_roun
         for c in live:
             res.events.setdefault(c.id, [])
         return res
-    names = sorted(n for n in arts if n.startswith("shard_"))
+    names = sorted(n for n in arts if n.startswith(pkg + "_"))
     out = common.run_bins(arts, names, os.path.join(cdir, "out"), env=env)
     for n, (rc, log, errtxt) in out.items():
         if not os.path.exists(log):
